@@ -4,6 +4,7 @@ import (
 	"fmt"
 	"go/token"
 	"go/types"
+	"sort"
 	"strings"
 
 	"golang.org/x/tools/go/ssa"
@@ -879,10 +880,38 @@ func (c *Ctx) RuleSplitJoinFrame() *Result {
 // insertion index.
 func (c *Ctx) RuleOrderKey() *Result {
 	res := &Result{Rule: "ORDER-KEY", MinInst: 1}
+	// comparators: Less methods of sort.Interface types, and the functions handed to sort.Slice /
+	// sort.SliceStable / slices.SortFunc / slices.SortStableFunc, in package regex/parser
+	comparators := map[*ssa.Function]bool{}
 	for _, fn := range c.P.RepoFns {
-		if fn.Name() != "Less" || fn.Signature.Recv() == nil || load.ShortPkg(load.FnPkgPath(fn)) != "regex/parser" || fn.Synthetic != "" {
+		if load.ShortPkg(load.FnPkgPath(fn)) != "regex/parser" {
 			continue
 		}
+		if fn.Name() == "Less" && fn.Signature.Recv() != nil && fn.Synthetic == "" {
+			comparators[fn] = true
+		}
+		allInstrs(fn, func(in ssa.Instruction) {
+			cc := callCommon(in)
+			if cc == nil {
+				return
+			}
+			f := staticCallee(cc)
+			if f == nil || !(objPkgPath(f) == "sort" && strings.HasPrefix(f.Name(), "Slice") || objPkgPath(f) == "slices" && strings.HasSuffix(f.Name(), "Func") && strings.HasPrefix(f.Name(), "Sort")) {
+				return
+			}
+			for _, a := range cc.Args {
+				for _, cf := range fnValuesIn(a, 2) {
+					comparators[cf] = true
+				}
+			}
+		})
+	}
+	var cmpFns []*ssa.Function
+	for fn := range comparators {
+		cmpFns = append(cmpFns, fn)
+	}
+	sort.Slice(cmpFns, func(i, j int) bool { return load.FnName(cmpFns[i]) < load.FnName(cmpFns[j]) })
+	for _, fn := range cmpFns {
 		res.Instances++
 		key := load.FnName(fn) + ":comparator"
 		pos := c.P.FnPos(fn)
@@ -893,11 +922,21 @@ func (c *Ctx) RuleOrderKey() *Result {
 			if !ok || len(r.Results) != 1 {
 				return
 			}
-			b, ok := r.Results[0].(*ssa.BinOp)
-			if !ok || b.Op != token.LSS {
+			var x, y ssa.Value
+			switch v := r.Results[0].(type) {
+			case *ssa.BinOp:
+				if v.Op == token.LSS || v.Op == token.SUB {
+					x, y = v.X, v.Y
+				}
+			case *ssa.Call:
+				if f := staticCallee(&v.Call); f != nil && objPkgPath(f) == "cmp" && f.Name() == "Compare" && len(v.Call.Args) == 2 {
+					x, y = v.Call.Args[0], v.Call.Args[1]
+				}
+			}
+			if x == nil {
 				return
 			}
-			fx, fy := fieldOfLoad(b.X), fieldOfLoad(b.Y)
+			fx, fy := fieldOfLoad(x), fieldOfLoad(y)
 			if fx != nil && fx == fy {
 				if bt, ok := fx.Type().Underlying().(*types.Basic); ok && bt.Info()&types.IsInteger != 0 {
 					field, okCmp = fx, true
